@@ -237,7 +237,7 @@ def case(ctx, rnd, i):
     # random configuration
     n = rnd.randint(2, 5)
     names = ["m%d" % k for k in range(n)]
-    groups = ["g1", "g2"]
+    groups = ["g", "mg"] if rnd.random() < 0.5 else ["g1", "g2"]  # "g" is a substring of "mg": names must match whole words
     marks = {}
     for nm in names:
         s = {}
@@ -247,19 +247,19 @@ def case(ctx, rnd, i):
         elif r < 0.3:
             s["excludes"] = ""
         elif r < 0.65:
-            s["excludes"] = " ".join(rnd.sample(names + groups[:1], rnd.randint(1, min(3, n))))
+            s["excludes"] = " ".join(rnd.sample(names + groups[:1] + groups[:1], rnd.randint(1, min(3, n))))
         if rnd.random() < 0.4:
-            s["group"] = rnd.choice(groups + ["g1 g2"])
+            s["group"] = rnd.choice(groups + [" ".join(groups)])
         if rnd.random() < 0.5:
             s["attrs"] = {"k": ({"default": 0} if rnd.random() < 0.6 else {}), **({"j": {"default": None}} if rnd.random() < 0.3 else {})}
         if rnd.random() < 0.2:
             s["inclusive"] = False
         marks[nm] = s
-    if not any("g1" in (s.get("group") or "") for s in marks.values()):
-        marks[names[0]]["group"] = "g1"
+    if not any(groups[0] in (s.get("group") or "").split(" ") for s in marks.values()):
+        marks[names[0]]["group"] = groups[0]
     node_marks = ["_", "", None]
     for _ in range(2):
-        node_marks.append(" ".join(rnd.sample(names + ["g1"], rnd.randint(1, min(3, n)))))
+        node_marks.append(" ".join(rnd.sample(names + [groups[0]], rnd.randint(1, min(3, n)))))
     try:
         S, rs, spec = build(marks, node_marks)
     except Exception as e:
